@@ -15,7 +15,7 @@ func init() {
 		id: "C11",
 		li: levelInfo{
 			Level:       "other",
-			Explanation: "Static panic-freedom obligations in the untrusted-input cone (everything reachable from the downstream decode loop, the backend decode loop and the slot refresh, inside proc/redis). R1: every index and slice expression on a slice or string in the cone has a zone-domain witness (dominating length guards, loop bounds, literal lengths, and a short table of data-structure invariants each of which is itself checked where it is established). R2: a pointer obtained from a map lookup is dereferenced only behind the comma-ok form or a nil test. R3: every allocation whose size derives from decoded input is dominated by lower and upper limit tests. R4: every call-graph cycle in the cone that consumes input carries a depth counter compared with a constant; cycles that only walk already decoded values are bounded by that. R5: every loop whose trip count derives from integers parsed out of untrusted text is dominated by a range check against constants. R6: no non-comma-ok type assertion on input-derived values and no explicit panic in the cone. R7: a decode error ends the read loop and the session closes its connection on every exit. The fixed-buffer window invariant of the buffered reader (0 <= r <= w <= len(buf)) is assumed, memory high-water marks and panics inside third-party code are not decided. R4 decides the depth bound of input-consuming recursion by a counter-discipline analysis: a net effect per function consistent on all paths (constant propagation of the counter delta, defers included), no call into the cycle at a negative delta, every counted call behind a `counter < const` guard, and no cycle of calls made at delta 0. R1 also evaluates the hash-tag decision tree (shared with C12.O4) for the routing helper. R8: exactly-once ownership (E-own) of the requests handled in the backend-reply cone - an unanswered request wedges its connection. R9: every loop in the input cone is a range loop, a counted loop, a loop that consumes its slice, or a loop that waits for input in every iteration.",
+			Explanation: "Static panic-freedom obligations in the untrusted-input cone (everything reachable from the downstream decode loop, the backend decode loop and the slot refresh, inside proc/redis). R1: every index and slice expression on a slice or string in the cone has a zone-domain witness (dominating length guards, loop bounds, literal lengths, and a short table of data-structure invariants each of which is itself checked where it is established). R2: a pointer obtained from a map lookup is dereferenced only behind the comma-ok form or a nil test. R3: every allocation whose size derives from decoded input is dominated by lower and upper limit tests. R4: every call-graph cycle in the cone that consumes input carries a depth counter compared with a constant; cycles that only walk already decoded values are bounded by that. R5: every loop whose trip count derives from integers parsed out of untrusted text is dominated by a range check against constants. R6: no non-comma-ok type assertion on input-derived values and no explicit panic in the cone. R7: a decode error ends the read loop and the session closes its connection on every exit. The fixed-buffer window invariant of the buffered reader (0 <= r <= w <= len(buf)) is assumed, memory high-water marks and panics inside third-party code are not decided. R4 decides the depth bound of input-consuming recursion by a counter-discipline analysis: a net effect per function consistent on all paths (constant propagation of the counter delta, defers included), no call into the cycle at a negative delta, every counted call behind a `counter < const` guard, and no cycle of calls made at delta 0. R1 also evaluates the hash-tag decision tree (shared with C12.O4) for the routing helper. R8: exactly-once ownership (E-own) of the requests handled in the backend-reply cone - an unanswered request wedges its connection. R9: every loop in the input cone is a range loop, a counted loop, a loop that consumes its slice, or a loop that waits for input in every iteration. R10 (shared with C07.R1): the in-flight connect entry is finished and deleted on every path. R11 (shared with C18.R2): the node index taken from a SCAN cursor is tested against the length of the list it indexes.",
 			Assumptions: []string{"buffered reader window invariant 0 <= r <= w <= len(buf) (bufio.go internals are not keyed)", "x + const does not overflow"},
 			TrustedBase: []string{"go/ssa", "VTA call graph", "samlint ebounds.go + zone.go"},
 		},
